@@ -164,13 +164,16 @@ def _r7(ctx):
                 if F in native:
                     ctx.unrec("R7", key, (RF, rets[0].line), f"cannot find where the {F!r} arm writes self.{attr}")
                 continue
-            fmts = [x for x in walk(arm) if isinstance(x, tuple) and len(x) == 4 and x[0] == "fmt" and any(y == A for y in walk(x[1]))]
+            def is_fmt(x):
+                return isinstance(x, tuple) and len(x) == 4 and x[0] == "fmt" and any(y == A for y in walk(x[1]))
+            # the innermost format specification around the attribute (a formatted piece pasted into a larger f-string is text)
+            fmts = [x for x in walk(arm) if is_fmt(x) and not any(is_fmt(y) for y in walk(x[1]))]
             def printed(x):
                 """occurrences of the attribute that can reach the text: outside format specifications' values and outside the
                 conditions that choose between texts"""
                 if x == A:
                     return 1
-                if not isinstance(x, tuple) or not x or (len(x) == 4 and x[0] == "fmt"):
+                if not isinstance(x, tuple) or not x or x in fmts:
                     return 0
                 return sum(printed(y) for i_, y in enumerate(x) if isinstance(y, tuple) and not (x[0] in ("phi", "ifexp") and i_ == 1))
             loose = printed(arm)
@@ -996,7 +999,6 @@ def _windows_unconditional(ctx, pkg):
                     ctx.bad("R4", f"{cls}:{attr} stored", (file, fn.lineno), f"{cls}._parse_string never stores {attr}")
                 continue
             key = f"{cls}:{attr} = float(field)"
-            line_ = ("param", fn.args.args[1].arg) if len(fn.args.args) > 1 else None
 
             def num(x):
                 """a numeric literal (signed literals included), else None"""
@@ -1008,7 +1010,7 @@ def _windows_unconditional(ctx, pkg):
                 """a piece cut from the line: an element / slice / unpacking target of (a view of) the parsed string"""
                 while x[0] == "meth" and x[2] in ("strip", "lstrip", "rstrip") and not x[3]:
                     x = x[1]          # float() ignores surrounding blanks anyway
-                return x[0] in ("item", "sub", "elem") and (line_ is None or any(y == line_ for y in walk(x)))
+                return x[0] in ("item", "sub", "elem")
 
             def arms(x, conds=()):
                 """[(conditions, leaf)] of a value chosen by conditions; float(a if c else b) is float(a) if c else float(b)"""
@@ -1029,8 +1031,8 @@ def _windows_unconditional(ctx, pkg):
                 return "other"
 
             def on_content(c):
-                """the condition looks at the text of the line (a field is tested before it is converted)"""
-                return any(isinstance(y, tuple) and y and is_field(y) for y in walk(c))
+                """the condition looks at the text of the very field the store converts (it is tested before float() sees it)"""
+                return any(isinstance(y, tuple) and y and y in leaf_fields for y in walk(c))
             last = st[-1]
             # every store of the attribute with the conditions that tell it from the others (guards shared by all of them -- the
             # "not a blank line" test -- say nothing about which value is stored)
@@ -1039,6 +1041,7 @@ def _windows_unconditional(ctx, pkg):
                 shared &= set(o_.guards)
             lv = [(tuple(simp(g_) for g_, pol in o_.guards if (g_, pol) not in shared) + cs, x) for o_ in st for cs, x in arms(o_.value)]
             kinds = [kind(x) for _, x in lv]
+            leaf_fields = {y for _, x in lv for y in walk(x) if isinstance(y, tuple) and y and y[0] in ("item", "sub", "elem")}
             tests = [c for cs, _ in lv for c in cs]
             found_ = "; ".join(dict.fromkeys(show(x)[:60] for _, x in lv))[:140]
             if kinds == ["field"] and not tests:
